@@ -70,6 +70,45 @@ func subValues(v any, out *[]any, depth int) {
 	}
 }
 
+// nullAtEveryPosition returns one copy of v per position (object member, array element, at any depth) with that
+// position replaced by null.
+func nullAtEveryPosition(v any) []any {
+	var out []any
+	var rec func(cur any, rebuild func(any) any)
+	rec = func(cur any, rebuild func(any) any) {
+		switch t := cur.(type) {
+		case jsonx.Obj:
+			for i := range t {
+				i := i
+				mk := func(nv any) any {
+					cp := append(jsonx.Obj{}, t...)
+					cp[i] = jsonx.KV{K: t[i].K, V: nv}
+					return rebuild(cp)
+				}
+				if t[i].V != nil {
+					out = append(out, mk(nil))
+				}
+				rec(t[i].V, mk)
+			}
+		case []any:
+			for i := range t {
+				i := i
+				mk := func(nv any) any {
+					cp := append([]any{}, t...)
+					cp[i] = nv
+					return rebuild(cp)
+				}
+				if t[i] != nil {
+					out = append(out, mk(nil))
+				}
+				rec(t[i], mk)
+			}
+		}
+	}
+	rec(v, func(x any) any { return x })
+	return out
+}
+
 type totalPend struct {
 	c     *Case
 	typ   string
@@ -172,6 +211,16 @@ func RunTotal(cfg *TotalConfig) (*Report, error) {
 						break
 					}
 					addDoc(jsonx.Marshal(m.V), "mutant:"+m.Class)
+				}
+				// null at every position of the valid documents, one at a time (nullable or not: totality does not care)
+				nn := 0
+				for _, v := range valids {
+					for _, nv := range nullAtEveryPosition(v) {
+						if nn++; nn > 40 {
+							break
+						}
+						addDoc(jsonx.Marshal(nv), "null-at-position")
+					}
 				}
 				base := jsonx.Marshal(valids[0])
 				for k := 1; k <= 6 && len(base) > 2; k++ {
